@@ -140,7 +140,6 @@ class ProcessExecutor:
         futures_to_start = list(self._pending_future_to_thunk.keys())[:start_count]
         for future in futures_to_start:
             thunk = self._pending_future_to_thunk[future]
-            del self._pending_future_to_thunk[future]
             process = self.mp_context.Process(
                 target=_subprocess_target,
                 kwargs=dict(
@@ -149,8 +148,12 @@ class ProcessExecutor:
                     result_queue=self._result_queue,
                 ),
             )
-            self._running_id_to_future_and_process[future.id] = (future, process)
+            # Only stop tracking the future as pending once it is
+            # tracked as running, so that an interrupt can never leave
+            # it tracked as neither (and waited on forever).
             process.start()
+            self._running_id_to_future_and_process[future.id] = (future, process)
+            del self._pending_future_to_thunk[future]
 
     def submit(self, fn: Callable, /, *args, **kwargs) -> Future:
         """Schedule the given fn to be called with the given *args and
@@ -197,6 +200,10 @@ class ProcessExecutor:
                 # self._result_queue.get()
                 inner_timeout_seconds = 0
 
+                if future_id not in self._running_id_to_future_and_process:
+                    # Result of a process that is no longer tracked
+                    # (e.g. stopped, or interrupted while starting).
+                    continue
                 future, _ = self._running_id_to_future_and_process[future_id]
                 del self._running_id_to_future_and_process[future_id]
                 if not future.done:
